@@ -126,7 +126,7 @@ func (r *Run) M() *Model {
 	m.SessionStore = named(pkgModels, "SessionStore")
 	m.ECS = named(pkgModels, "EntityComponentStore")
 	m.IDGen = named(pkgModels, "SequentialIDGenerator")
-	if len(r.Undecided) > 0 {
+	if r.broken() {
 		return m
 	}
 	m.findDispatch(r)
